@@ -7,6 +7,7 @@ every `ord` that enumerates the set it is given (`OrdOk`).  `WF cbs`: registered
 up to case.  `Before l a b`: `a` is placed before `b` in `l`.  `Respects l E`: every edge of `E`.
 -/
 import LimnoriaModel.C20.Lemmas
+import LimnoriaModel.C20.Dispatch
 namespace C20
 open Py List
 
@@ -312,6 +313,37 @@ theorem commands_union {ord : Ord} (ho : OrdOk ord) {cbs : Cbs} (hw : WF cbs) {p
     · exact ⟨q, hp.mem_iff.mpr (mem_append.mpr (Or.inl hq)), hc⟩
     · exact ⟨p, hp.mem_iff.mpr (mem_append.mpr (Or.inr (mem_singleton.mpr rfl))), hc⟩
 
+/-- **commands_dispatch.**  The same statement through C14's model of the real dispatcher
+(`findCallbacksForArgs` + `finalEval`, imported from C14): for a canonical one-word command, the
+dispatcher over the current list finds no plugin exactly when no registered plugin has the command,
+and when exactly one registered plugin has it, that plugin (at its position in the list) is run —
+whatever `importantPlugins` says. -/
+theorem commands_dispatch (cbs : Cbs) (hw : WF cbs) (imp : List Name) (c : Name)
+    (hc : C14.canonicalName c = c) :
+    (c ∉ answered cbs → C14.dispatch (dispCfg cbs imp) [c] = .none) ∧
+    (∀ p ∈ cbs, c ∈ p.commands → (∀ q ∈ cbs, c ∈ q.commands → q = p) →
+      ∃ i, cbs[i]? = some p ∧ C14.dispatch (dispCfg cbs imp) [c] = .run i p.name [c] []) := by
+  constructor
+  · intro h
+    apply dispatch_none cbs imp c hc
+    intro p hp hcp
+    exact h (by unfold answered; exact mem_flatMap.mpr ⟨p, hp, hcp⟩)
+  · intro p hp hcp huniq
+    obtain ⟨l1, l2, hs⟩ := append_of_mem hp
+    have hnd : (l1 ++ p :: l2).Nodup := hs ▸ hw.nodup
+    have hp1 : p ∉ l1 := fun h => by
+      have := (nodup_append.mp hnd).2.2 p h p mem_cons_self
+      exact this rfl
+    have hp2 : p ∉ l2 := (nodup_cons.mp (nodup_append.mp hnd).2.1).1
+    refine ⟨l1.length, by rw [hs]; simp, ?_⟩
+    apply dispatch_unique cbs imp c hc l1 l2 p hs hcp
+    · intro q hq hcq
+      have := huniq q (by rw [hs]; exact mem_append.mpr (Or.inl hq)) hcq
+      exact hp1 (this ▸ hq)
+    · intro q hq hcq
+      have := huniq q (by rw [hs]; exact mem_append.mpr (Or.inr (mem_cons_of_mem _ hq))) hcq
+      exact hp2 (this ▸ hq)
+
 /-! ### non-vacuity, and the two recorded defects -/
 
 def pOwner : Plugin := ⟨"Owner".toList, .owner, [], [], []⟩
@@ -331,6 +363,9 @@ example : addCallback id [pOwner, pB, pMisc] pA = .ok [pOwner, pA, pB, pMisc] :=
 /-- rejected, list unchanged: B' → A → B' -/
 example : addCallback id [pOwner, pA, pMisc] pB' = .error (.assertion, [pOwner, pA, pMisc]) := by decide
 example : isOwnerName "OWNER".toList = true := by decide
+example : C14.canonicalName ['a'] = ['a'] := by decide
+example : C14.dispatch (dispCfg [pOwner, pA, pB, pMisc] []) [['a']] = .run 1 ['A'] [['a']] [] :=
+  dispatch_unique _ _ _ (by decide) [pOwner] [pB, pMisc] pA rfl (by decide) (by decide) (by decide)
 /-- start-up: A's flag is on, B's is off, Misc is important: A and Misc are loaded, B is not -/
 example : (startup id ⟨fun n => if n = ['A'] then some pA else if n = ['B'] then some pB else
       if n = pMisc.name then some pMisc else none, fun _ => {}, [pMisc.name], true⟩
